@@ -329,6 +329,55 @@ def recipes(env):
             return sa.select(orm.Bundle("bn", A.id, A.x), sa.func.row_number().over(order_by=A.id)).where(A.s.in_([v.next("str")]))
         return sa.delete(B).where(B.q.in_(sa.select(A.x).where(A.flag.is_(True))))
 
+    @rec("hostile_names")
+    def _(rng, v):
+        """columns and explicit bind parameters whose names need escaping in a placeholder ( % ( ) : . [ ] blank )"""
+        names = rng.sample(["user id", "a.b", "pct%", "arr[1]", "f(x)", "x:y", "plain", "q?m", "dq\"x", "back`tick", "semi;colon"], 3)
+        ht = sa.table("h t", *[sa.column(n, sa.Integer) for n in names], sa.column("id", sa.Integer))
+        c0, c1, c2 = [ht.c[n] for n in names]
+        k = rng.random()
+        if k < 0.2:
+            return sa.insert(ht).values({names[0]: v.next("int"), names[1]: v.next("int")})
+        if k < 0.3:
+            return sa.insert(ht)     # all columns as (escaped) named parameters
+        if k < 0.5:
+            return sa.update(ht).values({names[0]: v.next("int"), names[2]: c1 + 1}).where(c1 > v.next("int")).returning(c0)
+        if k < 0.65:
+            return sa.select(c0, c2).where(c1 == sa.bindparam(names[1], v.next("int"))).where(c0.in_([v.next("int"), v.next("int")]))
+        if k < 0.8:
+            return sa.select(ht).where(c0 == sa.bindparam(rng.choice(["a.b", "arr[1]", "user id", "p%q", "x:y"]))).where(
+                c1 < sa.bindparam("x(y)", v.next("int"), literal_execute=rng.random() < 0.3))
+        if k < 0.9:
+            return sa.delete(ht).where(c0.in_(sa.bindparam("in.list", [v.next("int"), v.next("int")], expanding=True))).returning(ht.c.id)
+        return sa.insert(ht).values({names[0]: sa.bindparam("b%1"), names[1]: sa.bindparam("b 2")}).returning(c2)
+
+    @rec("dialect_type_single_cast")
+    def _(rng, v):
+        """one dialect-specific type at a time (a construct holding several would stop at the first documented error)"""
+        t = rng.choice([
+            lambda: ora.INTERVAL(day_precision=2, second_precision=3), lambda: ora.INTERVAL(), lambda: ora.NUMBER(5, 2), lambda: ora.RAW(16),
+            lambda: ora.NCLOB(), lambda: ora.BINARY_DOUBLE(), lambda: ora.ROWID(), lambda: ora.VARCHAR2(10), lambda: ora.TIMESTAMP(timezone=True),
+            lambda: ora.FLOAT(binary_precision=5), lambda: ora.LONG(), lambda: ora.DATE(),
+            lambda: pg.INTERVAL(fields="YEAR", precision=2), lambda: pg.INTERVAL(), lambda: pg.TIMESTAMP(precision=3), lambda: pg.TIME(timezone=True, precision=2),
+            lambda: pg.BIT(3, varying=True), lambda: pg.ENUM("a", "b", name="pe"), lambda: pg.ARRAY(sa.Integer, dimensions=2), lambda: pg.JSONB(), lambda: pg.MONEY(),
+            lambda: pg.DOMAIN("dm", sa.Integer), lambda: pg.TSVECTOR(), lambda: pg.INT4RANGE(), lambda: pg.CITEXT(), lambda: pg.OID(),
+            lambda: my.SET("a", "b"), lambda: my.ENUM("x", "y"), lambda: my.YEAR(), lambda: my.TINYINT(1), lambda: my.BIT(3), lambda: my.MEDIUMTEXT(collation="utf8_bin"),
+            lambda: my.DATETIME(fsp=3), lambda: my.TIME(fsp=2), lambda: my.DOUBLE(asdecimal=False), lambda: my.INTEGER(display_width=4, unsigned=True), lambda: my.JSON(),
+            lambda: ms.MONEY(), lambda: ms.UNIQUEIDENTIFIER(), lambda: ms.DATETIMEOFFSET(3), lambda: ms.DATETIME2(2), lambda: ms.XML(), lambda: ms.SQL_VARIANT(),
+            lambda: ms.TIME(3), lambda: ms.ROWVERSION(), lambda: ms.IMAGE(), lambda: ms.NTEXT(), lambda: ms.VARBINARY(16), lambda: ms.REAL(),
+            lambda: sl.DATETIME(truncate_microseconds=True), lambda: sl.DATE(storage_format="%(year)04d%(month)02d%(day)02d"), lambda: sl.TIME(), lambda: sl.JSON(),
+        ])()
+        k = rng.random()
+        if k < 0.5:
+            return sa.select(sa.cast(ta.c.s, t))
+        if k < 0.7:
+            return sa.select(sa.type_coerce(ta.c.s, t), sa.literal(None, t))
+        if k < 0.85:
+            return sa.select(ta.c.id).where(ta.c.s == sa.bindparam("tv", None, type_=t))
+        from sqlalchemy.schema import CreateTable as _CT
+
+        return _CT(sa.Table("dt%d" % rng.randint(1, 9), sa.MetaData(), sa.Column("id", sa.Integer, primary_key=True), sa.Column("c", t)))
+
     @rec("copy_edge_shapes")
     def _(rng, v):
         """shapes whose clones / pickles are delicate: repeated columns through a subquery, unlabeled scalar
@@ -685,6 +734,46 @@ def ddl_recipes(env):
                                  **rng.choice([{}, {}, {"sqlite_on_conflict": "IGNORE"}, {"postgresql_nulls_not_distinct": True}]))
         t2.append_constraint(uq)
         out += [CreateTable(t2), AddConstraint(uq), DropConstraint(uq)]
+        return out
+
+    @rec("constraint_names")
+    def _(rng, v):
+        """Add/DropConstraint, Create/DropIndex, comments over named / unnamed / naming-convention / _NONE_NAME objects:
+        the error paths have to be documented errors"""
+        n[0] += 1
+        conv = rng.choice([None, None, {"ix": "ix_%(column_0_label)s", "uq": "uq_%(table_name)s_%(column_0_name)s", "ck": "ck_%(table_name)s_%(constraint_name)s",
+                                        "fk": "fk_%(table_name)s_%(column_0_name)s_%(referred_table_name)s", "pk": "pk_%(table_name)s"},
+                           {"uq": "uq_%(table_name)s_%(column_0_N_name)s"}, {"ck": "ck_%(table_name)s_%(column_0_name)s"}])
+        md = sa.MetaData(naming_convention=conv) if conv else sa.MetaData()
+        parent = sa.Table(f"cp{n[0]}", md, sa.Column("id", sa.Integer, primary_key=True))
+        nm = lambda p: rng.choice([None, None, f"{p}_{n[0]}", "Mixed Name", "x" * 70])   # noqa: E731
+        t = sa.Table(
+            f"cn{n[0]}", md,
+            sa.Column("id", sa.Integer, primary_key=True),
+            sa.Column("p_id", sa.Integer, sa.ForeignKey(parent.c.id, name=nm("fk"))),
+            sa.Column("x", sa.Integer), sa.Column("y", sa.String(10)),
+            sa.UniqueConstraint("x", name=nm("uq")),
+            sa.CheckConstraint("x > 5", name=nm("ck")),
+            sa.UniqueConstraint("x", "y", name=nm("uq2")),
+            sa.Index(nm("ix"), "y"),
+            schema=rng.choice([None, None, "sch1"]),
+        )
+        out = []
+        for c in list(t.constraints) + list(parent.constraints):
+            out.append(AddConstraint(c))
+            out.append(DropConstraint(c, cascade=rng.random() < 0.3, if_exists=rng.random() < 0.3))
+        for ix in t.indexes:
+            out += [CreateIndex(ix, if_not_exists=rng.random() < 0.3), DropIndex(ix, if_exists=rng.random() < 0.3)]
+        sq = sa.Sequence(rng.choice([f"s{n[0]}", "Mixed Seq"]), metadata=md, schema=t.schema)
+        out += [CreateTable(t), DropTable(t, if_exists=rng.random() < 0.5), CreateSequence(sq), DropSequence(sq, if_exists=rng.random() < 0.5),
+                SetTableComment(t), DropTableComment(t), SetColumnComment(t.c.x), DropColumnComment(t.c.x)]
+        try:
+            from sqlalchemy.schema import DropConstraintComment, SetConstraintComment
+
+            c = rng.choice(list(t.constraints))
+            out += [SetConstraintComment(c), DropConstraintComment(c)]
+        except ImportError:
+            pass
         return out
 
     @rec("sequences_schemas")
